@@ -28,10 +28,11 @@ def hash_data_frame(d) -> str:
         [type(v).__name__ for v in d.iloc[:, j]]
         if str(d.iloc[:, j].dtype) == "object"
         else [type(v).__name__ for v in d.iloc[:, j].cat.categories]
+        + [hashlib.sha256(d.iloc[:, j].cat.codes.to_numpy().tobytes()).hexdigest()]
         for j in range(d.shape[1])
         if str(d.iloc[:, j].dtype) in ("object", "category")
     ]  # by position: a query result may repeat a column name; a categorical column says "category" whatever it holds
-    # (its cells are its categories: their types are looked at, not every cell)
+    # (its cells are its categories: their types are looked at, and which cell holds which category, not every cell)
     type_str = hashlib.sha256(str((col_types, cell_types)).encode("utf-8")).hexdigest()
     return f"{d.shape}_{list(d.columns)}_{hash_str}_{type_str}"
 
